@@ -227,8 +227,25 @@ func (m *C16) After(w *world.World, a *world.Action, r *world.StepResult) *Viola
 	}
 	m.payout = true
 	w.Label("payout")
+	// staking txs and validator removals withdraw rewards (all denoms) from the distribution module in the same
+	// block; the receiving side can only be balanced when none happened
+	for _, tx := range r.Txs {
+		if tx.Action != nil {
+			switch tx.Action.Kind {
+			case world.KDelegate, world.KUndelegate, world.KRedelegate, world.KCreateValidator, world.KUnjail:
+				w.Label("payout-accounting-skipped")
+				return nil
+			}
+		}
+	}
+	for name, o := range pre.outstanding {
+		if _, still := post.outstanding[name]; !still && !o.IsZero() {
+			w.Label("payout-accounting-skipped")
+			return nil
+		}
+	}
 	// what left the pool went to the distribution module; validators + community pool got at most that, at least that minus dust
-	distrDelta := post.distr.Sub(pre.distr...)
+	distrDelta, _ := post.distr.SafeSub(pre.distr...)
 	for _, c := range paidOut {
 		if distrDelta.AmountOf(c.Denom).LT(c.Amount) {
 			return violf(P, "distribution-balance", "%s left the rewards pool but the distribution module received %s", c, distrDelta.AmountOf(c.Denom))
